@@ -235,6 +235,15 @@ Error BaseAssembler::embed_const_pool(const Label& label, const ConstPool& pool)
     }
   }
 
+  // bind() must not refuse (a pending reference that cannot reach the pool) after align() has emitted the padding.
+  {
+    uint64_t aligned_offset = Support::align_up<uint64_t>(offset(), Support::max<uint64_t>(pool.alignment(), 1u));
+    Error err = _code->_validate_label_fixups(_code->label_entry_of(label), _section->section_id(), aligned_offset);
+    if (ASMJIT_UNLIKELY(err != Error::kOk)) {
+      return report_error(err);
+    }
+  }
+
   ASMJIT_PROPAGATE(align(AlignMode::kData, uint32_t(pool.alignment())));
   ASMJIT_PROPAGATE(bind(label));
 
